@@ -632,6 +632,15 @@ def r13_5(ctx):
                     and norm(v.args[0].generators[0].iter) == line_p and norm(v.args[0].elt).endswith(".cell_length")
                     and not v.args[0].generators[0].ifs
                 )
+                if not good and isinstance(v, ast.Call) and isinstance(v.func, ast.Attribute) and isinstance(v.func.value, ast.Name) and v.func.value.id in ("cls", "self", "Segment") and len(v.args) == 1 and norm(v.args[0]) == line_p and f.cls is not None:
+                    # the same sum behind a method of the class (Segment.get_line_length): read its closed return
+                    from ..astutil import helper_closed_return as _hcr, substitute_call as _subc
+                    h_ = f.cls.method(v.func.attr)
+                    closed_ = _hcr(h_.node) if h_ is not None else None
+                    if closed_ is not None:
+                        b_ = _subc(h_.node, v, closed_, receiver=v.func.value)
+                        good = (b_ is not None and isinstance(b_, ast.Call) and call_name(b_) == "sum" and b_.args and isinstance(b_.args[0], ast.GeneratorExp)
+                                and norm(b_.args[0].generators[0].iter) == line_p and norm(b_.args[0].elt).endswith(".cell_length") and not b_.args[0].generators[0].ifs)
                 if not good:
                     ok = False
                     detail += f" with {meas[0]} defined by `{short(dn.stmt) if dn.stmt is not None else dn.kind}`"
@@ -923,6 +932,29 @@ def r13_9(ctx):
               f"overflow test `{norm(t)}` is not `running + {sz} > {max_p}`: a piece can exceed the width, or characters that fit exactly are pushed to the next piece")
     if tot is None:
         return
+
+    # the placement clauses below read one vocabulary: append(ch) / lines.append([ch]) / lines[-1].append(ch), the running size and
+    # the re-binding of the append alias.  A loop body that keeps its pieces differently (a separate current-piece list joined on
+    # overflow, string concatenation, ...) is another bookkeeping: not decided here, never reported
+    def _known(st):
+        if isinstance(st, ast.If):
+            return all(_known(b_) for b_ in list(st.body) + list(st.orelse))
+        if isinstance(st, ast.Expr) and isinstance(st.value, ast.Call):
+            fn_ = norm(expand_alias(st.value.func, aliases))
+            if any(isinstance(y, ast.Call) and isinstance(y.func, ast.Attribute) and y.func.attr == "join" for a_ in st.value.args for y in ast.walk(a_)):
+                return False  # a finished piece is joined and stored: the pieces are strings, not lists of characters
+            return fn_.endswith(".append") or fn_ == "append"
+        if isinstance(st, ast.Expr) and isinstance(st.value, ast.Constant):
+            return True
+        if isinstance(st, ast.Assign) and len(st.targets) == 1:
+            t_ = norm(st.targets[0])
+            return t_ == tot or t_ == "append" or norm(st.value) == f"[{ch}]" or norm(st.value).endswith(".append")
+        if isinstance(st, ast.AugAssign):
+            return norm(st.target) == tot
+        return False
+    foreign = [st for st in list(iff.body) + list(iff.orelse) if not _known(st)]
+    if foreign:
+        raise AnalysisError(f"chop_cells: the pieces are kept by `{short(foreign[0])}`, a bookkeeping this rule does not read (it interprets append(character) / lines.append([character]) and slices of the text); the placement clause is not decided")
 
     def appends(body):
         out = 0
